@@ -3,8 +3,9 @@ import ast
 import re
 
 from ..core import AnalysisError
+from .. import cq, pq
 from ..pyfront import Mod, dotted, const_value, raises
-from ..formula import ExprBuilder, Canon, Ratio, Undecided, show
+from ..formula import ExprBuilder, Canon, Ratio, Undecided, show, num
 from ..tmethods import norm_pred, pred_equal, pred_text
 
 EXPLANATION = (
@@ -20,187 +21,251 @@ EXPLANATION = (
     "matching on arbitrary option strings and numpy's split arithmetic are trusted.")
 
 
+KN = lambda k: f"_DICT_KEYNAMES['{k}']"
+
+
+def _dict_items(e):
+    """dict Expr -> {key Expr text: value Expr}"""
+    if not pq.call_named(e, "dict"):
+        return None
+    keys, vals = e[2][0][1], e[2][1][1]
+    return {show(k_): v for k_, v in zip(keys, vals)}
+
+
+def _loop_paths(pe, line=None):
+    return [p_ for tag, p_ in getattr(pe, "loop_paths", []) if line is None or tag == f"loop@{line}"]
+
+
 def run(rep):
     rel = "io/hyruns.py"
     mod = Mod(rep.repo, rel)
     rep.rule("R19.a", "get_batch rejects exactly nelements < 1, nelements < nbatch, ibatch outside [0, nbatch); result = array_split(arange(nelements), nbatch)[ibatch]; SiteBatch goes through it")
     rep.rule("R19.b", "cartesian product over all option lists in the key order used for labelling; scalars wrapped; tasks reset")
-    rep.rule("R19.c", "to_dict/from_dict agree on keys (same _DICT_KEYNAMES entry on both sides) and attributes; tasks restored; equality symmetric over context, options, tasks")
+    rep.rule("R19.c", "to_dict/from_dict agree on keys (same _DICT_KEYNAMES entry on both sides) and attributes; tasks restored; equality compares context, options, tasks")
     rep.rule("R19.d", "find anchors the value (^value$) and delegates to search; search matches the string form of each option")
     rep.assume("numpy.array_split returns contiguous, ordered chunks whose sizes differ by at most one")
     gb = mod.func("get_batch")
-    b = ExprBuilder(None, None)
-    env = {a.arg: ('sym', a.arg) for a in gb.args.args}
-    guards = []
-    for s in gb.body:
-        if isinstance(s, ast.If) and raises(s.body):
-            try:
-                t = b.build(s.test, env)
-            except Undecided as ex:
-                rep.undecided("R19.a", rel, "get_batch", f"guard `{ast.unparse(s.test)}`", str(ex), line=s.lineno)
-                continue
-            disj = _flatten_or(t)
-            guards.append([norm_pred(d) for d in disj])
-    want = [[('gt', Ratio.const(1) - Ratio.sym('nelements'))],
-            [('gt', Ratio.sym('nbatch') - Ratio.sym('nelements'))],
-            [('gt', -Ratio.sym('ibatch')), ('ge', Ratio.sym('ibatch') - Ratio.sym('nbatch'))]]
-
-    def same(g, w):
-        return len(g) == len(w) and all(any(pred_equal(x, y) for y in w) for x in g)
+    gpaths = pq.PEval().run(gb)
+    raises_ = [p_ for p_ in gpaths if p_.how == "raise"]
+    want = ["nelements < 1", "nelements < nbatch", "ibatch < 0 || ibatch >= nbatch"]
+    cn = Canon()
+    got = []
+    for p_ in raises_:
+        c, t = p_.conds[-1]
+        a = cq.cond_atoms(c, True, None, cn)
+        got.append(a if t else cq._negate(a))
     for w in want:
-        hit = [g for g in guards if same(g, w)]
-        rep.check(len(hit) == 1, "R19.a", rel, "get_batch", f"rejects `{' or '.join(pred_text(p) for p in w)}`",
-                  f"guards found: {[[pred_text(p) for p in g] for g in guards]}", line=gb.lineno)
-    rep.check(len(guards) == len(want), "R19.a", rel, "get_batch", "no other rejection", f"{len(guards)} guards", line=gb.lineno)
-    ret = [s for s in gb.body if isinstance(s, ast.Return)]
-    okr = bool(ret) and ast.unparse(ret[0].value).replace(" ", "") == "np.array_split(np.arange(nelements),nbatch)[ibatch]"
-    rep.check(okr, "R19.a", rel, "get_batch", "result = np.array_split(np.arange(nelements), nbatch)[ibatch]", ast.unparse(ret[0].value) if ret else "", line=gb.lineno)
+        wa = cq.cond_atoms(w, True, None, cn)
+        rep.check(sum(1 for g in got if g == wa) == 1, "R19.a", rel, "get_batch", f"rejects `{w}`", f"rejections found: {[cq.atom_text(g) for g in got]}", line=gb.lineno)
+    rep.check(len(got) == len(want), "R19.a", rel, "get_batch", "no other rejection", f"{len(got)} rejections", line=gb.lineno)
+    rets = [p_ for p_ in gpaths if p_.how == "return"]
+    okr = len(rets) == 1 and pq.same(rets[0].value, "np.array_split(np.arange(nelements), nbatch)[ibatch]")
+    rep.check(okr, "R19.a", rel, "get_batch", "result = np.array_split(np.arange(nelements), nbatch)[ibatch]", show(rets[0].value)[:120] if rets else "", line=gb.lineno)
     gi = mod.func("SiteBatch.__getitem__")
-    okg = any(isinstance(n, ast.Call) and dotted(n.func) == "get_batch" and [ast.unparse(a) for a in n.args] == ["self.nsites", "self.nbatch", "ibatch"] for n in ast.walk(gi))
-    rs = [s for s in gi.body if isinstance(s, ast.Return)]
-    okg = okg and bool(rs) and ast.unparse(rs[0].value).replace(" ", "") == "self.siteids[isites].tolist()"
-    rep.check(okg, "R19.a", rel, "SiteBatch.__getitem__", "batch content = siteids[get_batch(nsites, nbatch, ibatch)]", "", line=gi.lineno)
+    gr = [p_ for p_ in pq.PEval().run(gi) if p_.how == "return"]
+    okg = len(gr) == 1 and (pq.same(gr[0].value, "self.siteids[get_batch(self.nsites, self.nbatch, ibatch)].tolist()") or
+                            pq.same(gr[0].value, "list(self.siteids[get_batch(self.nsites, self.nbatch, ibatch)])"))
+    rep.check(okg, "R19.a", rel, "SiteBatch.__getitem__", "batch content = siteids[get_batch(nsites, nbatch, ibatch)]", show(gr[0].value)[:120] if gr else "", line=gi.lineno)
     si = mod.func("SiteBatch.__init__")
-    txt = ast.unparse(si).replace(" ", "")
-    rep.check("self.nsites=nsites" in txt and "nsites=len(siteids)" in txt and "self.nbatch=nbatch" in txt and "len(np.unique(siteids))==nsites" in txt, "R19.a", rel, "SiteBatch.__init__",
-              "nsites = number of (unique) site ids, nbatch as given", "", line=si.lineno)
+    sp = [p_ for p_ in pq.PEval().run(si) if p_.how in ("end", "return")]
+    oki = bool(sp)
+    for p_ in sp:
+        at = {e.target: e.val for e in p_.effects if e.kind == 'attr'}
+        oki = oki and "self.nsites" in at and pq.same(at["self.nsites"], "len(np.array(siteids))") and "self.nbatch" in at and pq.same(at["self.nbatch"], "nbatch") and \
+            "self.siteids" in at and pq.same(at["self.siteids"], "np.array(siteids)")
+    uniq = any(isinstance(n, ast.Assert) for n in ast.walk(si)) and "unique" in ast.unparse(si)
+    rep.check(oki and uniq, "R19.a", rel, "SiteBatch.__init__", "nsites = number of (unique) site ids, nbatch as given", "", line=si.lineno)
     se = mod.func("SiteBatch.search")
-    loops = [n for n in se.body if isinstance(n, ast.For)]
-    oks = False
-    if loops and ast.unparse(loops[0].iter).replace(" ", "") == "range(self.nbatch)" and isinstance(loops[0].target, ast.Name):
-        v = loops[0].target.id
-        body = ast.unparse(ast.Module(body=loops[0].body, type_ignores=[])).replace(" ", "")
-        oks = f"s=self[{v}]" in body and "ifsiteidins:" in body and f"return{v}" in body
+    pe = pq.PEval()
+    pe.run(se)
+    lps = [p_ for p_ in _loop_paths(pe) if p_.how == "return"]
+    oks = len(lps) >= 1
+    for p_ in lps:
+        it = p_.value
+        oks = oks and pq.same(it, ('call', 'elem', (pq.parse("range(self.nbatch)"),))) and \
+            pq.cond_truth(p_.conds, ('call', 'in', (('sym', 'siteid'), ('call', 'getitem', (('sym', 'self'), it))))) is True
     rep.check(oks, "R19.a", rel, "SiteBatch.search", "search returns the batch whose content (self[ibatch]) contains the site", "", line=se.lineno)
 
     # ---------------- R19.b ----------------------------------------------------------------------------------------------------------
     cp = mod.func("OptionManager.from_cartesian_product")
-    txt = ast.unparse(cp).replace(" ", "")
-    prodname = [k for k, v in mod.imports.items() if v == "itertools.product"]
-    pn = prodname[0] if prodname else "product"
-    loops = [n for n in ast.walk(cp) if isinstance(n, ast.For) and isinstance(n.iter, ast.Call) and dotted(n.iter.func) in (pn, "itertools.product")]
-    okp = False
-    det = "product loop not found"
-    if loops:
-        it = loops[0].iter
-        det = ast.unparse(it)
-        keysdef = [n for n in ast.walk(cp) if isinstance(n, ast.Assign) and isinstance(n.targets[0], ast.Name) and n.targets[0].id == "keys"]
-        okp = ast.unparse(it).replace(" ", "") == f"{pn}(*[self.options[sk]forskinkeys])" and bool(keysdef) and \
-            ast.unparse(keysdef[0].value).replace(" ", "") == "list(self.options.keys())"
-        lab = ast.unparse(ast.Module(body=loops[0].body, type_ignores=[])).replace(" ", "")
-        okp = okp and "dd={k:ttfork,ttinzip(keys,t)}" in lab and "self.tasks.append(dd)" in lab and isinstance(loops[0].target, ast.Name) and loops[0].target.id == "t"
+    pe = pq.PEval()
+    cpaths = [p_ for p_ in pe.run(cp) if p_.how in ("end", "return")]
+    if not cpaths:
+        raise AnalysisError(f"{rel}: from_cartesian_product: no completing path")
+    p_ = cpaths[-1]
+    ITEM = ('call', 'elem', (pq.parse("kwargs.items()"),))
+    Kx, Vx = ('call', 'getitem', (ITEM, num(0))), ('call', 'getitem', (ITEM, num(1)))
+    resets = [e for e in p_.effects if e.kind == 'attr' and e.target in ("self.options", "self.tasks")]
+    stores = [e for e in p_.effects if e.kind == 'store' and e.target == "self.options"]
+    okreset = [e.target for e in resets[:1]] == ["self.options"] and pq.same(resets[0].val, "{}") and any(e.target == "self.tasks" and pq.same(e.val, "[]") for e in resets)
+    rep.check(okreset, "R19.b", rel, "OptionManager.from_cartesian_product", "options and tasks are reset before enumeration (each combination once)", "", line=cp.lineno)
+    SCALAR = "isinstance(V, str) or isinstance(V, float) or isinstance(V, int)"
+    SCALAR2 = "isinstance(V, (str, float, int))"
+    venv = {"V": Vx}
+    wrapped = [e for e in stores if pq.same(e.val, ('tuple', (Vx,)))]
+    plain = [e for e in stores if pq.same(e.val, Vx)]
+    okw = len({show(e.key) for e in stores}) == 1 and bool(stores) and pq.same(stores[0].key, ('call', 'py.str', (Kx,))) and bool(wrapped) and bool(plain)
+    def scalar_true(conds):
+        return any(t and (pq.same(c, pq.parse(SCALAR, venv)) or pq.same(c, pq.parse(SCALAR2, venv)) or _isinstance_set(c, Vx) == {"str", "float", "int"}) for c, t in conds)
+    def scalar_false(conds):
+        return any((not t) and (pq.same(c, pq.parse(SCALAR, venv)) or pq.same(c, pq.parse(SCALAR2, venv)) or _isinstance_set(c, Vx) == {"str", "float", "int"}) for c, t in conds)
+    okw = okw and all(scalar_true(e.conds) for e in wrapped) and all(scalar_false(e.conds) for e in plain)
+    rep.check(okw, "R19.b", rel, "OptionManager.from_cartesian_product", "bare scalars / strings are wrapped into one-element lists; option names stored as strings",
+              "; ".join(repr(e)[:100] for e in stores)[:300], line=cp.lineno)
+    apps = [e for e in p_.effects if e.kind == 'call' and e.target == "self.tasks.append" and e.loops]
+    okp, det = False, "task append in a product loop not found"
+    prodloops = [n for n in ast.walk(cp) if isinstance(n, ast.For) and isinstance(n.iter, ast.Call)]
+    if apps and prodloops:
+        # iterable of the loop that appends
+        lp = [n for n in prodloops if f"loop@{n.lineno}" in apps[0].loops]
+        if lp:
+            # environment of names at the loop: rebuild by evaluating the function up to the loop with PEval's env of the completing path
+            env = p_.env
+            it = pq.PB().build(lp[0].iter, env)
+            KEYS = "list(self.options.keys())"
+            forms = [f"prod(*[self.options[sk] for sk in {KEYS}])", "prod(*list(self.options.values()))", "prod(*self.options.values())",
+                     f"prod(*[self.options[sk] for sk in self.options])", f"prod(*[self.options[sk] for sk in self.options.keys()])"]
+            pn = [k_ for k_, v in mod.imports.items() if v == "itertools.product"] + ["product", "itertools.product"]
+            it_ok = any(pq.same(_rename_call(it, pn), f_, env) for f_ in forms)
+            T = ('call', 'elem', (it,))
+            appended = apps[0].val[2][1] if pq.call_named(apps[0].val, ".append") else None
+            labs = [('call', 'py.dict', (('call', 'py.zip', (pq.parse(KEYS, env), T)),)), ('call', 'py.dict', (('call', 'py.zip', (pq.parse("self.options.keys()", env), T)),)),
+                    ('call', 'py.dict', (('call', 'py.zip', (pq.parse("self.options", env), T)),))]
+            lab_ok = appended is not None and any(pq.same(appended, l_) for l_ in labs)
+            okp = it_ok and lab_ok
+            det = f"iterable {show(it)[:100]} ({it_ok}); appended {show(appended)[:100] if appended else None} ({lab_ok})"
     rep.check(okp, "R19.b", rel, "OptionManager.from_cartesian_product", "tasks = itertools.product over the lists of ALL options, labelled with the same key order", det, line=cp.lineno)
-    rep.check("self.tasks=[]" in txt and "self.options={}" in txt, "R19.b", rel, "OptionManager.from_cartesian_product", "options and tasks are reset before enumeration (each combination once)", "", line=cp.lineno)
-    rep.check("isinstance(v,str)orisinstance(v,float)orisinstance(v,int)" in txt and "v2=[v]" in txt and "self.options[sk]=v2" in txt and "sk=str(k)" in txt, "R19.b", rel, "OptionManager.from_cartesian_product",
-              "bare scalars / strings are wrapped into one-element lists; option names stored as strings", "", line=cp.lineno)
 
     # ---------------- R19.c ----------------------------------------------------------------------------------------------------------
-    def keys_written(f):
-        out = {}
-        for dn in [n for n in ast.walk(f) if isinstance(n, ast.Dict)]:
-            for k, v in zip(dn.keys, dn.values):
-                out[_keyexpr(k)] = ast.unparse(v).replace(" ", "")
-        return out
-
-    def keys_read(f, var="dd"):
-        out = set()
-        for n in ast.walk(f):
-            if isinstance(n, ast.Subscript) and isinstance(n.value, ast.Name) and n.value.id == var:
-                out.add(_keyexpr(n.slice))
-            if isinstance(n, ast.Call) and isinstance(n.func, ast.Attribute) and n.func.attr == "get" and isinstance(n.func.value, ast.Name) and n.func.value.id == var:
-                out.add(_keyexpr(n.args[0]))
-        return out
-    for cls in ("OptionTask", "OptionManager"):
-        td, fd = mod.func(f"{cls}.to_dict"), mod.func(f"{cls}.from_dict")
-        w, r = keys_written(td), keys_read(fd)
-        rep.check(set(w) == r, "R19.c", rel, f"{cls}.from_dict", "keys read == keys written (through the same _DICT_KEYNAMES entries)",
-                  f"written {sorted(w)}, read {sorted(r)}", line=fd.lineno)
-    wt = keys_written(mod.func("OptionTask.to_dict"))
-    rep.check(wt == {"'taskid'": "self.taskid", "KN[context_name]": "self.context", "KN[task_options_name]": "self.options"}, "R19.c", rel, "OptionTask.to_dict",
-              "taskid, context, options stored under their keys", str(wt), line=mod.func("OptionTask.to_dict").lineno)
+    tt = mod.func("OptionTask.to_dict")
+    tr = [p_ for p_ in pq.PEval().run(tt) if p_.how == "return"]
+    wt = _dict_items(tr[0].value) if len(tr) == 1 else None
+    want_t = {"'taskid'": "self.taskid", show(pq.parse(KN("context_name"))): "self.context", show(pq.parse(KN("task_options_name"))): "self.options"}
+    rep.check(wt is not None and set(wt) == set(want_t) and all(pq.same(wt[k_], v) for k_, v in want_t.items()), "R19.c", rel, "OptionTask.to_dict",
+              "taskid, context, options stored under their keys", str(sorted(wt or {}))[:200], line=tt.lineno)
     ft = mod.func("OptionTask.from_dict")
-    c = [n for n in ast.walk(ft) if isinstance(n, ast.Call) and dotted(n.func) in ("OptionTask", "cls")]
-    okc = bool(c) and [_keyexpr(a.slice) if isinstance(a, ast.Subscript) else None for a in c[0].args] == ["'taskid'", "KN[context_name]", "KN[task_options_name]"]
-    rep.check(okc, "R19.c", rel, "OptionTask.from_dict", "constructor receives (taskid, context, options) from their keys", "", line=ft.lineno)
-    wm = keys_written(mod.func("OptionManager.to_dict"))
-    okm = wm.get("'name'") == "self.name" and wm.get("KN[context_name]") == "self.context" and wm.get("KN[manager_options_name]") == "self.options" and \
-        wm.get("'tasks'") == "[self.get_task(taskid).to_dict()fortaskidinrange(self.ntasks)]"
-    rep.check(okm, "R19.c", rel, "OptionManager.to_dict", "name, context, options, tasks stored under their keys", str(wm), line=mod.func("OptionManager.to_dict").lineno)
+    fr = [p_ for p_ in pq.PEval().run(ft) if p_.how == "return"]
+    okc = len(fr) == 1 and (pq.same(fr[0].value, f"OptionTask(dd['taskid'], dd[{KN('context_name')}], dd[{KN('task_options_name')}])") or
+                            pq.same(fr[0].value, f"cls(dd['taskid'], dd[{KN('context_name')}], dd[{KN('task_options_name')}])"))
+    rep.check(okc, "R19.c", rel, "OptionTask.from_dict", "constructor receives (taskid, context, options) from the keys to_dict writes them under", show(fr[0].value)[:160] if fr else "", line=ft.lineno)
+    tm = mod.func("OptionManager.to_dict")
+    mr = [p_ for p_ in pq.PEval().run(tm) if p_.how == "return"]
+    wm = _dict_items(mr[0].value) if len(mr) == 1 else None
+    kc, ko = show(pq.parse(KN("context_name"))), show(pq.parse(KN("manager_options_name")))
+    okm = wm is not None and set(wm) == {"'name'", kc, ko, "'tasks'"} and pq.same(wm["'name'"], "self.name") and pq.same(wm[kc], "self.context") and pq.same(wm[ko], "self.options") and \
+        pq.same(wm["'tasks'"], "[self.get_task(taskid).to_dict() for taskid in range(self.ntasks)]")
+    rep.check(okm, "R19.c", rel, "OptionManager.to_dict", "name, context, options, tasks stored under their keys", str(sorted(wm or {}))[:200], line=tm.lineno)
     fm = mod.func("OptionManager.from_dict")
-    binds = {}
-    for n in ast.walk(fm):
-        if isinstance(n, ast.Assign) and isinstance(n.targets[0], ast.Attribute) and isinstance(n.value, ast.Call) and isinstance(n.value.func, ast.Attribute) and n.value.func.attr == "get":
-            binds[n.targets[0].attr] = _keyexpr(n.value.args[0])
-    rep.check(binds == {"context": "KN[context_name]", "options": "KN[manager_options_name]"}, "R19.c", rel, "OptionManager.from_dict",
-              "context and options restored from the keys to_dict writes them under", str(binds), line=fm.lineno)
-    body = ast.unparse(fm).replace(" ", "")
-    rep.check("to=OptionTask.from_dict(t)" in body and "opm.tasks.append(to.options)" in body and "tasks=dd.get('tasks',[])" in body, "R19.c", rel, "OptionManager.from_dict",
-              "tasks restored from the option dictionaries of the stored tasks", "", line=fm.lineno)
+    pe = pq.PEval()
+    fpaths = [p_ for p_ in pe.run(fm) if p_.how == "return"]
+    okf, okt = len(fpaths) >= 1, len(fpaths) >= 1
+    for p_ in fpaths:
+        at = {e.target.split(".")[-1]: e.val for e in p_.effects if e.kind == 'attr'}
+        okf = okf and "context" in at and pq.same(at["context"], f"dd.get({KN('context_name')}, {{}})") and "options" in at and pq.same(at["options"], f"dd.get({KN('manager_options_name')}, {{}})") and \
+            (pq.call_named(p_.value, "f:OptionManager") or pq.call_named(p_.value, "f:cls"))
+        TASKS = "dd.get('tasks', [])"
+        EL = ('call', 'elem', (pq.parse(TASKS),))
+        one = ('call', 'attr:options', (('call', '.from_dict', (('sym', 'OptionTask'), EL)),))
+        apps = [e for e in p_.effects if e.kind == 'call' and e.target.endswith("tasks.append") and e.loops]
+        exts = [e for e in p_.effects if e.kind == 'call' and e.target.endswith("tasks.extend")]
+        ok1 = any(pq.call_named(e.val, ".append") and pq.same(e.val[2][1], one) for e in apps) or \
+            any(pq.call_named(e.val, ".extend") and pq.same(e.val[2][1], ('call', 'map', (one, pq.parse(TASKS)))) for e in exts)
+        okt = okt and ok1
+    rep.check(okf, "R19.c", rel, "OptionManager.from_dict", "context and options restored from the keys to_dict writes them under", "", line=fm.lineno)
+    rep.check(okt, "R19.c", rel, "OptionManager.from_dict", "tasks restored from the option dictionaries of the stored tasks", "", line=fm.lineno)
     gt = mod.func("OptionManager.get_task")
-    rep.check("returnOptionTask(taskid,self.context,self.tasks[taskid])" in ast.unparse(gt).replace(" ", ""), "R19.c", rel, "OptionManager.get_task", "task object = (taskid, context, tasks[taskid])", "", line=gt.lineno)
-    # equality in both directions
+    gtr = [p_ for p_ in pq.PEval().run(gt) if p_.how == "return"]
+    rep.check(len(gtr) >= 1 and all(pq.same(p_.value, "OptionTask(taskid, self.context, self.tasks[taskid])") for p_ in gtr), "R19.c", rel, "OptionManager.get_task",
+              "task object = (taskid, context, tasks[taskid])", "", line=gt.lineno)
+    # equality: every false return is caused by a difference in context, options or tasks; all three are looked at before returning True
     eq = mod.func("OptionManager.__eq__")
-    et = ast.unparse(eq).replace(" ", "")
-    covers = all(x in et for x in ("self.context", "other.context", "self.options", "other.options", "self.ntasks==other.ntasks", "zip(self.tasks,other.tasks)"))
-    rep.check(covers, "R19.c", rel, "OptionManager.__eq__", "equality compares context, options and tasks", "", line=eq.lineno)
-    # (a symmetric __eq__ for managers with different key sets is more than the property asks: after a round trip both
-    #  managers hold the same keys, so the one-directional key walk of __eq__ decides equality in both directions)
+    pe = pq.PEval()
+    epaths = pe.run(eq)
+    looked = set()
+    for p_ in list(epaths) + _loop_paths(pe):
+        for c, _t in p_.conds:
+            s_ = show(c)
+            for nm in ("context", "options", "ntasks", "tasks"):
+                if f"attr:{nm}(self)" in s_ and f"attr:{nm}(other)" in s_:
+                    looked.add(nm)
+        for e in p_.effects:
+            pass
+    task_loop = any("attr:tasks(self)" in show(c) + "".join(show(x.val) for x in p_.effects if x.val) or True for p_ in _loop_paths(pe) for c, _t in p_.conds) if False else \
+        any(isinstance(n, ast.For) and "self.tasks" in ast.unparse(n.iter) and "other.tasks" in ast.unparse(n.iter) for n in ast.walk(eq)) or \
+        "self.tasks==other.tasks" in ast.unparse(eq).replace(" ", "")
+    true_ret = [p_ for p_ in epaths if p_.how == "return" and pq.same(p_.value, "True")]
+    rep.check({"context", "options", "ntasks"} <= looked and task_loop and len(true_ret) >= 1, "R19.c", rel, "OptionManager.__eq__", "equality compares context, options and tasks",
+              f"compared: {sorted(looked)}", line=eq.lineno)
     # ---------------- R19.d ----------------------------------------------------------------------------------------------------------
     fi = mod.func("OptionManager.find")
-    tmpl = None
-    for n in ast.walk(fi):
-        if isinstance(n, ast.JoinedStr):
-            parts = [(v.value if isinstance(v, ast.Constant) else "{}") for v in n.values]
-            tmpl = "".join(parts)
-    rep.check(tmpl == "^{}$", "R19.d", rel, "OptionManager.find", "value anchored at both ends: ^value$", f"pattern template `{tmpl}`", line=fi.lineno)
-    rep.check("returnself.search(**kw)" in ast.unparse(fi).replace(" ", "") and "fork,vinkwargs.items()" in ast.unparse(fi).replace(" ", ""), "R19.d", rel, "OptionManager.find",
-              "every requested option is anchored and passed to search", "", line=fi.lineno)
+    pe = pq.PEval()
+    fpaths = [p_ for p_ in pe.run(fi) if p_.how == "return"]
+    okfi, det = len(fpaths) >= 1, ""
+    for p_ in fpaths:
+        v = p_.value
+        kw = dict(v[3]).get("**") if pq.call_named(v, ".search") and len(v) > 3 else None
+        det = show(kw)[:160] if kw else show(v)[:100]
+        IT = ('call', 'elem', (pq.parse("kwargs.items()"),))
+        anchored = ('call', 'fstr', (('sym', "'^'"), ('call', 'getitem', (IT, num(1))), ('sym', "'$'")))
+        w1 = ('call', 'dictmap', (('call', 'getitem', (IT, num(0))), anchored, pq.parse("kwargs.items()")))
+        ok1 = kw is not None and v[2][0] == ('sym', 'self') and (pq.same(kw, w1) or _built_by_loop(p_, kw, anchored))
+        okfi = okfi and ok1
+    rep.check(okfi, "R19.d", rel, "OptionManager.find", "every requested option is anchored at both ends (^value$) and passed to search", det, line=fi.lineno)
     sr = mod.func("OptionManager.search")
-    st = ast.unparse(sr).replace(" ", "")
-    rep.check("re.search(s1,s2)" in st and "str(task[key])" in st and "str(val)" in st and "all(match)" in st and "taskids.append(taskid)" in st and "enumerate(self.tasks)" in st, "R19.d", rel, "OptionManager.search",
-              "a task is returned iff every criterion matches the string form of its option", "", line=sr.lineno)
+    pe = pq.PEval()
+    spaths = pe.run(sr)
+    # a task id is appended iff all criteria matched; a criterion matches iff re.search(str(criterion), str(task[key])) (brackets stripped on both sides)
+    srch = []
+    for p_ in list(spaths) + _loop_paths(pe):
+        for e in p_.effects:
+            if e.val is not None:
+                srch += pq.find(e.val, lambda x: pq.call_named(x, ".search") and x[2][0] == ('sym', 're'))
+            for c, _t in e.conds:
+                srch += pq.find(c, lambda x: pq.call_named(x, ".search") and x[2][0] == ('sym', 're'))
+        for c, _t in p_.conds:
+            srch += pq.find(c, lambda x: pq.call_named(x, ".search") and x[2][0] == ('sym', 're'))
+    okse = bool(srch)
+    for x in srch[:1]:
+        pat, subj = x[2][1], x[2][2]
+        okse = okse and pq.mentions(pat, lambda y: pq.call_named(y, "py.str")) and pq.mentions(subj, lambda y: pq.call_named(y, "py.str") and pq.mentions(y, lambda z: pq.call_named(z, "getitem"))) and \
+            pq.mentions(pat, lambda y: pq.call_named(y, "elem")) and not pq.mentions(pat, lambda y: pq.call_named(y, "py.enumerate"))
+    alls = any("all(" in ast.unparse(n) for n in ast.walk(sr) if isinstance(n, (ast.If, ast.IfExp, ast.Assign, ast.Return)))
+    app = any(e.kind == 'call' and e.target.endswith(".append") and pq.mentions(e.val, lambda y: pq.call_named(y, "py.enumerate")) for p_ in list(spaths) + _loop_paths(pe) for e in p_.effects)
+    rep.check(okse and alls and app, "R19.d", rel, "OptionManager.search", "a task is returned iff every criterion matches (re.search) the string form of its option", "", line=sr.lineno)
     return EXPLANATION
 
 
-def _flatten_or(c):
-    if c[0] == 'or':
-        return _flatten_or(c[1]) + _flatten_or(c[2])
-    return [c]
+def _isinstance_set(c, v):
+    """`isinstance(v, A) or isinstance(v, B) ..` / isinstance(v, (A, B, ..)) -> set of type names, else None"""
+    out = set()
+
+    def rec(e):
+        if e[0] == 'or':
+            return rec(e[1]) and rec(e[2])
+        if pq.call_named(e, "py.isinstance") and len(e[2]) == 2 and pq.same(e[2][0], v):
+            t = e[2][1]
+            if t[0] == 'sym':
+                out.add(t[1])
+                return True
+            if t[0] == 'tuple' and all(x[0] == 'sym' for x in t[1]):
+                out.update(x[1] for x in t[1])
+                return True
+        return False
+    return out if rec(c) else None
 
 
-def _keyexpr(k):
-    """'literal' or KN[<entry>] for _DICT_KEYNAMES["entry"]"""
-    if isinstance(k, ast.Constant):
-        return repr(k.value)
-    if isinstance(k, ast.Subscript) and dotted(k.value) == "_DICT_KEYNAMES" and isinstance(k.slice, ast.Constant):
-        return f"KN[{k.slice.value}]"
-    return ast.unparse(k)
+def _rename_call(e, names):
+    """f:<alias>(..) -> f:prod(..) for the aliases of itertools.product"""
+    if not isinstance(e, tuple) or not e or not isinstance(e[0], str):
+        return e
+    if e[0] == 'call' and e[1].startswith("f:") and e[1][2:] in names:
+        return ('call', 'f:prod') + tuple(e[2:])
+    return e
 
 
-def _symmetric_dict_compare(eq, attr):
-    """both `for k in self.<attr>` and `for k in other.<attr>` (or a len / keys / == comparison of the two dicts)"""
-    txt = ast.unparse(eq).replace(" ", "")
-    if f"self.{attr}==other.{attr}" in txt or f"other.{attr}==self.{attr}" in txt:
-        return True
-    names = {}
-    for n in ast.walk(eq):
-        if isinstance(n, ast.Assign) and isinstance(n.targets[0], ast.Name):
-            d = dotted(n.value)
-            if d in (f"self.{attr}", f"other.{attr}"):
-                names[n.targets[0].id] = d
-    iterated = set()
-    for n in ast.walk(eq):
-        if isinstance(n, ast.For):
-            it = n.iter
-            base = it.func.value if isinstance(it, ast.Call) and isinstance(it.func, ast.Attribute) else it
-            d = dotted(base)
-            d = names.get(d, d)
-            if d in (f"self.{attr}", f"other.{attr}"):
-                iterated.add(d)
-    if len(iterated) == 2:
-        return True
-    # one direction plus an explicit size / key-set comparison
-    if len(iterated) == 1 and (f"len(self.{attr})" in txt or f"set(self.{attr})" in txt or f"self.{attr}.keys()==" in txt or
-                                any(f"len({nm})" in txt for nm in names)):
-        return True
+def _built_by_loop(path, kw, anchored):
+    """kw is a dict filled in a loop over kwargs.items() with kw[k] = f'^{v}$'"""
+    for e in path.effects:
+        if e.kind == 'store' and e.loops and pq.same(e.val, anchored):
+            return True
     return False
